@@ -200,6 +200,26 @@ def run(tier, seed):
                           signature=f"conc:{cap}:{reason}:{json.dumps(ev)}")
         if runs:
             chk.sample(dict(kind="concurrent execution", capacity=cap, trace=runs[len(runs) // 2][:20]))
+    # 3b. larger capacities (odd, even but not a power of two, powers of two) over several laps of the ring: one producer
+    #     thread and the consumer thread, validated by trace validation only
+    for cap in ((5, 6, 7, 10, 12, 16) if thorough else (5, 6, 10)):
+        n = 3 * cap + 2
+        progs = [dict(p1=["push"] * n, cons=["pop", "release"] * n + ["len"]),
+                 dict(p1=["push"] * cap + ["len"] + ["push"] * cap, p2=["push"] * (cap // 2),
+                      cons=["pop", "release"] * (2 * cap + cap // 2))]
+        for prog in progs:
+            prods = sorted(k for k in prog if k != "cons")
+            lines = harness(dict(mode="conc", capacity=cap, producers=prods, programs=[prog], repeat=4 if thorough else 2),
+                            wd, f"long_{cap}")
+            runs = split_resets(lines)
+            acc, rej, st = validate_traces(cap, prods, runs, wd, f"long_{cap}_{len(prods)}")
+            chk.add_trace_stats(f"real threads, several laps [capacity {cap}, {len(prods)} producer(s)]", acc + len(rej), st)
+            chk.evaluations += len(runs)
+            for (r, k, ev, reason) in rej:
+                chk.violation(f"execution on the real queue (capacity {cap}, several laps of the ring) is not linearisable "
+                              f"w.r.t. MpscQueue.tla: {reason} at event {k}: {json.dumps(ev)}",
+                              dict(engine="queue", capacity=cap, trace=r[:k + 1][-60:]),
+                              signature=f"long:{cap}:{reason}:{json.dumps(ev)}")
     # the wake-up protocol of the channel built on the queue: Channel.tla, every history of future polls replayed
     import check_chan
     check_chan.channel_part(chk, thorough, wd)
